@@ -7,6 +7,12 @@ CLAIMED = {
  'C16': dict(text='Every operator and math function of DenseAd::Evaluation in all size variants (1..12 specialisations, generic 13..16, dynamic) is symbolically executed with symbolic value/derivative slots; z3 proves each result slot equal to the chain-rule expression for all real operands (libm uninterpreted). Loop-free kernels, so the bound is only the operator-at-a-time granularity.',
              note='doubles as reals (rounding outside); libm uninterpreted; points of non-differentiability excluded by assumption; expression trees follow by compositionality, not re-derived', design='4/C16'),
 }
+CLAIMED.update({
+ 'C07': dict(text='The real array writer (EclOutput::write/message -> binary header/array writers) and readers (readBinaryHeader, readBinary*Array) run symbolically on an in-memory file with symbolic element bit patterns; bytes are compared with an independent reference codec of the published layout, reader output with the originals (bit-exact), and sizeOnDiskBinary/Formatted with the reference size for every n < 2^40 / 2^31. Lengths are concrete per harness at the block boundaries; values are fully symbolic.',
+             note='std::ofstream/fstream replaced by the memfile stream model; EclOutput object laid out by the harness; formatted element conversion (snprintf/stod) outside; lengths other than the listed boundary values covered only via the closed-form size arithmetic', design='4/C07'),
+ 'C13': dict(text='GridDims index laws for symbolic dimensions/indices, EclipseGrid active<->global maps for every ACTNUM vector of a 2x2x2 grid via the public API, geometry queries (volume, centre, depth, dims, thickness) of regular grids for all positive real spacings, and calculateCellVol proven equal (polynomial identity over 24 real coordinates) to an exact Simpson integration of the trilinear Jacobian.',
+             note='doubles as reals; sqrt uninterpreted with its defining axioms; OpenMP thread independence and EGRID file round trip not modelled; grid sizes bounded as listed', design='4/C13'),
+})
 NA = {
 }
 ALL = ['C%02d' % i for i in range(1, 21)]
